@@ -1,2 +1,65 @@
-/-! Driver for C16 (stub: not built yet). -/
-def main : IO Unit := pure ()
+import Drivers.Proto
+import PymocaVerif.Model.AliasMerge
+/-! Driver for C16: folds the merge step of alias elimination over the aliases of one canonical
+    variable (in the given iteration order) on extended rationals. -/
+open Lean Drivers PymocaVerif PymocaVerif.AliasMerge
+
+def parseExt (j : Json) : Except String ExtRat :=
+  match j with
+  | .str "inf" => pure .pinf
+  | .str "-inf" => pure .ninf
+  | .arr a => do
+    let n ← (a[0]?.getD Json.null).getInt?
+    let d ← (a[1]?.getD Json.null).getNat?
+    if d == 0 then throw "zero denominator" else pure (.fin (mkRat n d))
+  | _ => throw s!"bad number {j.compress}"
+
+def showExt : ExtRat → Json
+  | .pinf => Json.str "inf"
+  | .ninf => Json.str "-inf"
+  | .fin q => Json.arr #[Json.num (JsonNumber.fromInt q.num), Json.num (JsonNumber.fromNat q.den)]
+
+def parsePType (s : String) : Except String PType :=
+  match s with
+  | "float" => pure .float
+  | "int" => pure .int
+  | "bool" => pure .bool
+  | _ => throw s!"bad python type {s}"
+
+def showPType : PType → String
+  | .float => "float" | .int => "int" | .bool => "bool"
+
+def parseAttrs (j : Json) : Except String (Attrs ExtRat) := do
+  let mn ← parseExt (← getObj j "min")
+  let mx ← parseExt (← getObj j "max")
+  let nom ← parseExt (← getObj j "nominal")
+  let fx ← getBool j "fixed"
+  let st ← match (← getObj j "start") with
+    | Json.null => pure none
+    | v => (parseExt v).map some
+  let pt ← parsePType (← getStr j "ptype")
+  pure { min := mn, max := mx, nominal := nom, fixed := fx, start := st, ptype := pt }
+
+def showAttrs (a : Attrs ExtRat) : Json :=
+  Json.mkObj [("min", showExt a.min), ("max", showExt a.max), ("nominal", showExt a.nominal),
+    ("fixed", Json.bool a.fixed), ("start", match a.start with | none => Json.null | some v => showExt v),
+    ("ptype", Json.str (showPType a.ptype))]
+
+def parseEntry (j : Json) : Except String (Entry ExtRat) := do
+  let neg ← getBool j "neg"
+  let om ← getBool j "oldMulti"
+  let oc ← getBool j "oldCanon"
+  let a ← parseAttrs (← getObj j "attrs")
+  pure { neg := neg, oldMulti := om, oldCanon := oc, attrs := a }
+
+def handle (req : Json) : Except String Json := do
+  let op ← getStr req "op"
+  match op with
+  | "merge" => do
+    let c ← parseAttrs (← getObj req "canon")
+    let es ← (← getArr req "aliases").toList.mapM parseEntry
+    pure (Json.mkObj [("ok", true), ("merged", showAttrs (merge c es)),
+      ("skipped", Json.arr (es.map fun e => Json.bool e.skipped).toArray)])
+  | o => throw s!"unknown-op {o}"
+
+def main : IO Unit := serve handle
